@@ -13,6 +13,8 @@ pub proof fn vac_list_ok<A: Ord + Clone>() requires list_ok::<A>() ensures false
 pub proof fn vac_history<T, A: Ord + Clone + Eq>(u: Set<Op<T, A>>, d: Set<Op<T, A>>, c: SMap<A, u64>, m: SMap<Id<A>, T>, o1: Op<T, A>, o2: Op<T, A>)
     requires history_ok(u), delivered(d, u, c), denotes(m, d), causal_closed(d), d.contains(o1), d.contains(o2), o1 is Insert, o2 is Delete, o1->Insert_id != o2->Delete_id, m.contains_key(o1->Insert_id) ensures false {}
 pub proof fn vac_apply<T, A: Ord + Clone + Eq>(a: List<T, A>, op: Op<T, A>, b: List<T, A>) requires apply_post_list(a, op, b), op.dot_spec().counter == cnt(a.cl(), op.dot_spec().actor) + 1, a.sq().len() >= 2, op is Insert ensures false {}
+pub proof fn vac_glist_ok<T: Ord + Clone>() requires crate::glist::glist_ok::<T>() ensures false {}
+pub proof fn vac_glist_wf<T: Ord + Clone>(g: crate::glist::GList<T>) requires crate::glist::glist_ok::<T>(), g.wf(), g.ls().len() >= 2 ensures false {}
 pub proof fn vac_between_ok<T: Ord + Clone>() requires between_ok::<T>() ensures false {}
 pub proof fn vac_between_post<T: Ord + Clone>(l: crate::Identifier<T>, h: crate::Identifier<T>, m: T, r: crate::Identifier<T>) requires between_ok::<T>(), id_cmp(l@, h@) == core::cmp::Ordering::Less, between_post(Some(&l), Some(&h), m, r), l@.len() >= 2, h@.len() >= 2 ensures false {}
 pub proof fn vac_wf<T, A: Ord + Clone + Eq>(a: List<T, A>) requires a.wf(), a.sq().len() >= 2 ensures false {}
